@@ -280,7 +280,7 @@ def main(tier, seed):
             run.count('reference_runs_fresh_process')
         else:
             run.add({'layer': 'ref', 'item': c['item']['name']}, r)
-    pool.run_cases([{'item': it} for it in items], 'vf.props.C11:run_ref', timeout=60, batch=1, on_result=on_ref,
+    pool.run_cases([{'item': it, 'timeout': 55} for it in items], 'vf.props.C11:run_ref', timeout=60, batch=1, on_result=on_ref,
                    env=common.clean_env(hashseed='0'), oneshot=True)
     items = [dict(it, ref=refs[it['name']]) for it in items if it['name'] in refs]
     run.notes.append('t_ref=%.1f' % (time.time() - run.t0))
@@ -292,7 +292,7 @@ def main(tier, seed):
         def on_seed(c, r, sv=sv):
             run.add({'layer': 'seed', 'hashseed': sv, 'item': c['item']['name'], 'opts': c['item']['opts']}, r)
         sub = items if tier == 'thorough' else [it for i, it in enumerate(items) if (i + sv) % 2 == 0]
-        pool.run_cases([{'item': it} for it in sub], 'vf.props.C11:run_seed', timeout=60, batch=4, on_result=on_seed,
+        pool.run_cases([{'item': it, 'timeout': 55} for it in sub], 'vf.props.C11:run_seed', timeout=60, batch=4, on_result=on_seed,
                        env=common.clean_env(hashseed=str(sv)))
         run.count('hash_seeds_swept')
     run.notes.append('t_seed=%.1f' % (time.time() - run.t0))
@@ -302,7 +302,7 @@ def main(tier, seed):
     for h in range(nh):
         rr = common.rng(seed, 'C11-h', h)
         sub = rr.sample(items, min(len(items), 12))
-        hcases.append({'seed': seed * 100000 + h, 'items': sub, 'length': 40 if tier == 'quick' else 80})
+        hcases.append({'seed': seed * 100000 + h, 'items': sub, 'length': 40 if tier == 'quick' else 80, 'timeout': 280})
 
     def on_h(c, r):
         run.add({'layer': 'history', 'seed': c['seed'], 'items': [i['name'] for i in c['items']]}, r)
@@ -316,7 +316,7 @@ def main(tier, seed):
         rr = common.rng(seed, 'C11-t', t)
         sub = rr.sample(small, min(len(small), 8))
         tcases.append({'seed': seed * 1000 + t, 'items': sub, 'threads': rr.choice([4, 8] if tier == 'quick' else [4, 8, 16]), 'per_thread': 2 if tier == 'quick' else 3,
-                       'yield_p': rr.choice([0.005, 0.02, 0.1])})
+                       'yield_p': rr.choice([0.005, 0.02, 0.1]), 'timeout': 580})
 
     def on_t(c, r):
         run.add({'layer': 'threads', 'seed': c['seed'], 'threads': c['threads'], 'items': [i['name'] for i in c['items']]}, r)
